@@ -12,6 +12,7 @@ mod refmodel;
 mod report;
 mod rng;
 mod runner;
+mod selfcheck;
 
 use report::{Ctx, Tier};
 
@@ -54,6 +55,10 @@ fn main() {
                 "C11" => c16::check(&ctx, c16::Prop::C11),
                 _ => usage(),
             }
+        }
+        Some("selfcheck") => {
+            let ctx = Ctx::from_env(tier_from(&args, 1));
+            selfcheck::selfcheck(&ctx)
         }
         Some("replay") => {
             let path = args.get(1).cloned().unwrap_or_else(|| usage());
